@@ -117,6 +117,11 @@ def run(ck):
 
     enf_module_sweep(ck, crate("rs", CB), re.compile(r"concordium_base::(encrypted_transfers|elgamal)::"), 1, "encrypted_transfers/elgamal")
 
+    # c'. the accounting proof (EncTrans) zips each vector of chunk statements with its own vector of responses only after
+    #     comparing exactly those two lengths: a truncated zip drops a chunk from the linear balance relation
+    nz = extract_zip_sweep(ck, crate("rs", CB), re.compile(r"sigma_protocols::(enc_trans|com_enc_eq|elgamal_dec|com_eq|dlog)::.*SigmaProtocol>::extract_commit_message$"))
+    ck.floor("CMP", "chunk statement/response zips in the accounting proof", nz, 2)
+
     # d. chunking constants
     c = crate("rs", CB)
     adt = c.adts.get(CB + "::encrypted_transfers::types::EncryptedAmount")
